@@ -167,13 +167,24 @@ def build_props(ctx: Ctx, props_files, timeout=1500, extra=()):
             ctx.fail("coq", f"{ctx.pid}/coq/{fpath}:{thm}", f"proof obligation no longer checks: {fpath}:{line} ({thm}): {' '.join(msg.split())[:400]}")
     # Print Assumptions blocks, in order of appearance after each props file compile
     closed = len(re.findall(r"Closed under the global context", out))
-    ax_blocks = re.findall(r"Axioms:\n((?:.+\n)+?)(?=\S|\Z)", out)
-    axioms = set()
-    for b in ax_blocks:
-        for l in b.splitlines():
-            m = re.match(r"^([A-Za-z_][A-Za-z0-9_.']*)\s*:", l.strip()) if not l.startswith("  ") or ":" in l else None
-            if m:
-                axioms.add(m.group(1))
+    ax_blocks, axioms, cur = [], set(), None
+    for l in out.splitlines():
+        if l.strip() == "Axioms:":
+            cur = []
+            ax_blocks.append(cur)
+            continue
+        if cur is None:
+            continue
+        if l.startswith(" ") or not l.strip():
+            if not l.strip():
+                cur = None
+            continue
+        m = re.match(r"^([A-Za-z_][A-Za-z0-9_.']*)\s*(:|$)", l)
+        if m and not l.startswith(("Closed under", "COQ", "File ", "make", "Warning", "Error")):
+            cur.append(m.group(1))
+            axioms.add(m.group(1))
+        else:
+            cur = None
     ctx.axioms = {"closed_theorems": closed, "theorems_with_axioms": len(ax_blocks), "axioms": sorted(axioms)}
     if ctx.tier == "thorough" and ctx.coq_ok:
         mods = ["SymfcP." + os.path.basename(p)[:-2] for p in props_files]
